@@ -12,17 +12,16 @@ attribute store, any bypass set, any coin list.  Where a hypothesis appears it i
 * `Spec.DenomsAscending amt` — denoms strictly ascending (what `sdk.Coins.Validate` guarantees and the
   bank keeper enforces before moving anything).  It is needed only because `sdk.Coins.Find` is a binary
   search; `restricted_never_reaches_feeCollector`, `leaving_marker_needs_withdraw_or_feegrant`,
-  `deposit_into_restricted_needs_deposit`, `forceTransfer_right_irrelevant` hold for arbitrary lists;
-* `Spec.NoForeignAccountAtDenomAddr cfg amt` — see the deviation below.
+  `deposit_into_restricted_needs_deposit`, `forceTransfer_right_irrelevant` hold for arbitrary lists.
 
-DEVIATION (finding C04-denom-address-squat).  "Permitted exactly when the documented rules permit" is
-FALSE of the unchanged code in one case: if the address a marker for denom D *would* have holds an
-ordinary account (anybody can create one by sending a coin there) and D has no marker, the rules say
-"Is there a marker for Denom? — no → allowed" but `validateSendDenom` returns GetMarker's error
-(send_restrictions.go:101-104, and :27-30 on the bypass path).  `squatted_denom_denied_but_rules_allow`
-proves the negation on a concrete witness, `decide_eq_spec_partial` is the equality outside that case,
-and `allowed_only_if_rules_permit` shows the deviation is one-sided (the code never permits what the
-rules deny).
+HISTORY (finding C04-denom-address-squat, fixed by ed45788f3).  Before that commit "permitted exactly
+when the documented rules permit" was FALSE of the code in one case: if the address a marker for denom D
+*would* have held an ordinary account (anybody can create one by sending a coin there) and D had no
+marker, the rules said "Is there a marker for Denom? — no → allowed" but `validateSendDenom` (and the
+fee-collector loop of the bypass path) returned GetMarker's error.  The model of that code is kept as
+`decidePreFix`; `squatted_denom_denied_but_rules_allow_before_fix` is the witness and
+`preFix_agrees_outside_squat` says that was the only difference.  The model of the current code
+(`decide`) equals the specification without that exception: `decide_eq_spec`.
 -/
 import PvProofs.Lemmas.MkrSendRefine
 import Mathlib.Tactic.SplitIfs
@@ -30,13 +29,10 @@ import Mathlib.Tactic.SplitIfs
 namespace PvProofs.C04
 open PvModel PvModel.MkrSend PvProofs.MkrSendLemmas
 
-/-- **decide = spec** (`decide_eq_spec`, partial): on valid (denom-ascending) coins, and as long as no
-coin's marker address is occupied by a non-marker account, the code's decision — including *which*
-check refuses — is the documented flowchart's, for every configuration: any number of denoms,
-agents, grants, required attributes.  The excluded case is a genuine deviation
-(`squatted_denom_denied_but_rules_allow`). -/
-theorem decide_eq_spec_partial (cfg : Cfg) (amt : Coins)
-    (hs : Spec.DenomsAscending amt) (hn : Spec.NoForeignAccountAtDenomAddr cfg amt) :
+/-- **decide = spec**: on valid (denom-ascending) coins the code's decision — including *which* check
+refuses — is the documented flowchart's, for every configuration: any number of denoms, agents,
+grants, required attributes, any contents of the account and attribute stores. -/
+theorem decide_eq_spec (cfg : Cfg) (amt : Coins) (hs : Spec.DenomsAscending amt) :
     Spec.decisionFlow (decide cfg amt) = Spec.sendRestrictionFn cfg amt := by
   unfold MkrSend.decide sendRestrictionFn Spec.sendRestrictionFn
   rw [onBypassPath_eq]
@@ -44,7 +40,7 @@ theorem decide_eq_spec_partial (cfg : Cfg) (amt : Coins)
   · simp only [hq, if_true, Spec.qfc]
     by_cases hfc : cfg.toAddr = cfg.feeCollectorAddr
     · simp only [hfc, if_true, decide_true]
-      exact bypassLoop_eq_spec cfg amt hn
+      exact bypassLoop_eq_spec cfg amt
     · simp [hfc, Spec.decisionFlow, allow]
   · simp only [hq, Bool.false_eq_true, if_false]
     rw [← checkFromMarker_eq_spec cfg amt hs, ← checkToMarker_eq_spec cfg]
@@ -55,56 +51,15 @@ theorem decide_eq_spec_partial (cfg : Cfg) (amt : Coins)
       | error e => simp [Spec.decisionFlow]
       | ok v =>
         simp only [Spec.decisionFlow]
-        exact forCoins_flow cfg _ amt fun c hc => validateSendDenom_eq_spec cfg c.1 (hn c hc)
+        exact forCoins_flow cfg _ amt fun c _ => validateSendDenom_eq_spec cfg c.1
 
-/-- Corollary in the property's words: permitted by the code exactly when the rules permit. -/
-theorem permitted_iff_rules_permit_partial (cfg : Cfg) (amt : Coins)
-    (hs : Spec.DenomsAscending amt) (hn : Spec.NoForeignAccountAtDenomAddr cfg amt) :
+/-- The property in its own words: a movement of valid coins is permitted by the code **exactly when**
+the documented rules permit it. -/
+theorem permitted_iff_rules_permit (cfg : Cfg) (amt : Coins) (hs : Spec.DenomsAscending amt) :
     decide cfg amt = allow ↔ Spec.permitted cfg amt = true := by
   unfold Spec.permitted
-  rw [← decide_eq_spec_partial cfg amt hs hn]
+  rw [← decide_eq_spec cfg amt hs]
   cases decide cfg amt <;> simp [Spec.decisionFlow, Spec.Flow.isOk, allow]
-
-/-- Whenever the code allows, no coin's marker address was occupied by a foreign account — except on
-the bypass path towards a receiver other than the fee collector, where denoms are not looked at. -/
-theorem allow_noForeign (cfg : Cfg) (amt : Coins) (ha : decide cfg amt = allow)
-    (h : onBypassPath cfg = false ∨ cfg.toAddr = cfg.feeCollectorAddr) :
-    Spec.NoForeignAccountAtDenomAddr cfg amt := by
-  intro c hc
-  cases hacct : cfg.acct (cfg.markerAddr c.1) with
-  | none => rfl
-  | marker m => rfl
-  | other =>
-    exfalso
-    by_cases hb : onBypassPath cfg = true
-    · have hfc : cfg.toAddr = cfg.feeCollectorAddr := by
-        rcases h with h | h
-        · rw [h] at hb; cases hb
-        · exact h
-      unfold MkrSend.decide sendRestrictionFn at ha
-      simp only [hb, if_true, hfc] at ha
-      have := (forCoins_allow_iff _ _).mp ha c hc
-      rw [(bypassDenom_other hacct).1] at this
-      cases this
-    · have hb' : onBypassPath cfg = false := by simpa using hb
-      have := ((nonBypass_allow_iff cfg amt hb').mp ha).2.2
-      have := (forCoins_allow_iff _ _).mp this c hc
-      rw [validateSendDenom_other hacct] at this
-      cases this
-
-/-- **Soundness, unconditionally in the squatting case**: on valid coins the code never permits a
-movement the documented rules deny. -/
-theorem allowed_only_if_rules_permit (cfg : Cfg) (amt : Coins) (hs : Spec.DenomsAscending amt)
-    (ha : decide cfg amt = allow) : Spec.permitted cfg amt = true := by
-  by_cases h : onBypassPath cfg = false ∨ cfg.toAddr = cfg.feeCollectorAddr
-  · exact (permitted_iff_rules_permit_partial cfg amt hs (allow_noForeign cfg amt ha h)).mp ha
-  · have hb : Spec.qhasbp cfg = true := by
-      rw [← onBypassPath_eq]
-      cases hbp : onBypassPath cfg
-      · exact absurd (Or.inl hbp) h
-      · rfl
-    have hfc : ¬ cfg.toAddr = cfg.feeCollectorAddr := fun hc => h (Or.inr hc)
-    simp [Spec.permitted, Spec.sendRestrictionFn, hb, Spec.qfc, hfc, Spec.Flow.isOk]
 
 /-! ### The clauses the property names -/
 
@@ -359,11 +314,7 @@ theorem ordinary_restricted_send_iff (cfg : Cfg) (d : Denom) (a : Int) (m : Mark
        (m.reqAttrs = [] ∧ cfg.fromAddr ∈ cfg.reqAttrBypass) ∨
        (m.reqAttrs ≠ [] ∧ (cfg.toAddr ∈ cfg.reqAttrBypass ∨
           Spec.hasRequiredAttributes cfg m cfg.toAddr = true))) := by
-  have hn : Spec.NoForeignAccountAtDenomAddr cfg [(d, a)] := by
-    intro c hc
-    rw [List.mem_singleton.mp hc]
-    simp [hm, Acct.isOther]
-  rw [permitted_iff_rules_permit_partial cfg _ (ascending_singleton _) hn]
+  rw [permitted_iff_rules_permit cfg _ (ascending_singleton _)]
   have hq : Spec.qhasbp cfg = false := by rw [← onBypassPath_eq]; exact hb
   have hmo : Spec.markerOf cfg d = some m := by simp [Spec.markerOf, Spec.markerAt, hm]
   simp only [Spec.permitted, Spec.sendRestrictionFn, hq, Spec.checkSenderMarker, Spec.csm_issm, hfrom,
@@ -385,11 +336,13 @@ theorem ordinary_restricted_send_iff (cfg : Cfg) (d : Denom) (a : Int) (m : Mark
   · simp [h3, h5, h6, h8, h10, h11, Spec.Flow.isOk]
   · simp [h3, h5, h6, h8, h10, h11, Spec.Flow.isOk]
 
-/-- Coins without a marker, or of an active unrestricted marker, move freely between accounts that are
-not markers — whatever the flags, agents, attributes, deny lists. -/
+/-- Coins without a marker (an ordinary account at the denom's marker address does not make one), or of
+an active unrestricted marker, move freely between accounts that are not markers — whatever the flags,
+agents, attributes, deny lists. -/
 theorem unrestricted_coins_move_freely (cfg : Cfg) (amt : Coins)
     (hfrom : Spec.markerAt cfg cfg.fromAddr = none) (hto : Spec.markerAt cfg cfg.toAddr = none)
     (hcoins : ∀ c ∈ amt, cfg.acct (cfg.markerAddr c.1) = Acct.none ∨
+      cfg.acct (cfg.markerAddr c.1) = Acct.other ∨
       ∃ m, cfg.acct (cfg.markerAddr c.1) = Acct.marker m ∧ m.mtype = MType.coin ∧ m.status = MStatus.active) :
     decide cfg amt = allow := by
   by_cases hb : onBypassPath cfg = true
@@ -399,8 +352,9 @@ theorem unrestricted_coins_move_freely (cfg : Cfg) (amt : Coins)
     · simp only [hfc, if_true]
       rw [forCoins_allow_iff]
       intro c hc
-      rcases hcoins c hc with h | ⟨m, h, hty, _⟩
+      rcases hcoins c hc with h | h | ⟨m, h, hty, _⟩
       · exact (bypassDenom_none h).1
+      · exact (bypassDenom_other h).1
       · rw [(bypassDenom_marker h).1]; simp [hty]
     · simp [hfc]
   · have hb' : onBypassPath cfg = false := by simpa using hb
@@ -410,30 +364,31 @@ theorem unrestricted_coins_move_freely (cfg : Cfg) (amt : Coins)
     refine ⟨by simp [checkFromMarker, h1], by simp [checkToMarker, h2], ?_⟩
     rw [forCoins_allow_iff]
     intro c hc
-    rcases hcoins c hc with h | ⟨m, h, hty, hst⟩
+    rcases hcoins c hc with h | h | ⟨m, h, hty, hst⟩
     · exact validateSendDenom_none h
-    · simp [validateSendDenom, getMarker, h, hty, hst]
+    · exact validateSendDenom_other h
+    · simp [validateSendDenom, validateSendDenomMarker, getMarkerIgnoreErr, getMarker, h, hty, hst]
 
 /-- The bypass path (context bypass, or the marker module / ibc transfer account as sender) lets
 everything through, except towards the fee collector, where every coin must be free of a
-restricted marker (and of a foreign account at its marker address). -/
+restricted marker. -/
 theorem bypass_path_allow_iff (cfg : Cfg) (amt : Coins) (hb : onBypassPath cfg = true) :
     decide cfg amt = allow ↔
       (cfg.toAddr = cfg.feeCollectorAddr →
-        ∀ c ∈ amt, Spec.isRestrictedCoin cfg c.1 = false ∧ (cfg.acct (cfg.markerAddr c.1)).isOther = false) := by
+        ∀ c ∈ amt, Spec.isRestrictedCoin cfg c.1 = false) := by
   unfold MkrSend.decide sendRestrictionFn
   simp only [hb, if_true]
   by_cases hfc : cfg.toAddr = cfg.feeCollectorAddr
   · simp only [hfc, if_true, forCoins_allow_iff, true_implies]
     refine forall_congr' fun c => forall_congr' fun _ => ?_
     rcases hacct : cfg.acct (cfg.markerAddr c.1) with _ | _ | m
-    · simp [(bypassDenom_none hacct).1, (bypassDenom_none hacct).2, Acct.isOther]
-    · simp [(bypassDenom_other hacct).1, Acct.isOther, allow, deny]
+    · simp [(bypassDenom_none hacct).1, (bypassDenom_none hacct).2]
+    · simp [(bypassDenom_other hacct).1, (bypassDenom_other hacct).2]
     · rw [(bypassDenom_marker hacct).1, (bypassDenom_marker hacct).2]
-      by_cases hr : m.mtype = MType.restricted <;> simp [hr, Acct.isOther, allow, deny]
+      by_cases hr : m.mtype = MType.restricted <;> simp [hr, allow, deny]
   · simp [hfc]
 
-/-! ### The deviation: a foreign account at a denom's marker address -/
+/-! ### History: a foreign account at a denom's marker address (fixed by ed45788f3) -/
 
 /-- A plain send of a denom that has no marker, between two ordinary accounts, while somebody has
 put an ordinary account at the address a marker for that denom would have. -/
@@ -444,15 +399,29 @@ def squatCfg : Cfg :=
     markerModuleAddr := "mod:marker", ibcTransferModuleAddr := "mod:transfer", feeCollectorAddr := "fc",
     reqAttrBypass := Spec.bypassAccounts }
 
-/-- **Negation of the unrestricted `decide_eq_spec`** on a concrete witness (replayed on the
-implementation, finding `C04-denom-address-squat`): the rules permit the movement ("Is there a marker
-for Denom? — no → allowed"), the code refuses it. -/
-theorem squatted_denom_denied_but_rules_allow :
+/-- The witness of finding `C04-denom-address-squat` (kept in corpus/C04 and replayed on every run):
+the rules permit the movement ("Is there a marker for Denom? — no → allowed"); the code **before
+ed45788f3** (`decidePreFix`) refused it, so for that code `decide_eq_spec` was false; the current code
+allows it. -/
+theorem squatted_denom_denied_but_rules_allow_before_fix :
     Spec.DenomsAscending [("dna", (5 : Int))] ∧
-    decide squatCfg [("dna", 5)] = deny .notMarker ∧
     Spec.permitted squatCfg [("dna", 5)] = true ∧
-    Spec.decisionFlow (decide squatCfg [("dna", 5)]) ≠ Spec.sendRestrictionFn squatCfg [("dna", 5)] :=
-  ⟨by decide, by rfl, by decide, by decide⟩
+    decidePreFix squatCfg [("dna", 5)] = deny .notMarker ∧
+    Spec.decisionFlow (decidePreFix squatCfg [("dna", 5)]) ≠ Spec.sendRestrictionFn squatCfg [("dna", 5)] ∧
+    decide squatCfg [("dna", 5)] = allow :=
+  ⟨by decide, by decide, by rfl, by decide, by rfl⟩
+
+/-- That was the only difference: wherever no coin's marker address holds a foreign account, the code
+before ed45788f3 decided exactly as the current code does. -/
+theorem preFix_agrees_outside_squat (cfg : Cfg) (amt : Coins)
+    (hn : Spec.NoForeignAccountAtDenomAddr cfg amt) : decidePreFix cfg amt = decide cfg amt := by
+  unfold decidePreFix sendRestrictionFnPreFix MkrSend.decide sendRestrictionFn
+  have h1 := forCoins_congr (bypassFeeCollectorDenomPreFix cfg) (bypassFeeCollectorDenom cfg) amt
+    fun c hc => bypassDenomPreFix_eq (hn c hc)
+  have h2 := forCoins_congr (validateSendDenomPreFix cfg (getMarkerIgnoreErr cfg cfg.toAddr))
+    (validateSendDenom cfg (getMarkerIgnoreErr cfg cfg.toAddr)) amt
+    fun c hc => validateSendDenomPreFix_eq (hn c hc)
+  simp only [h1, h2]
 
 /-! ### Non-vacuity: concrete configurations meeting the hypotheses above -/
 
@@ -474,9 +443,8 @@ def exCfg (from_ to : Addr) (agents : List Addr) (toAttrs : List Name) : Cfg :=
 
 /-- decide_eq_spec / per_denom_independent: two denoms (one restricted, one without marker), sender with transfer. -/
 example : Spec.DenomsAscending [("rs", (1 : Int)), ("usd", 2)] ∧
-    Spec.NoForeignAccountAtDenomAddr (exCfg "A" "B" [] []) [("rs", 1), ("usd", 2)] ∧
     decide (exCfg "A" "B" [] []) [("rs", 1), ("usd", 2)] = allow :=
-  ⟨by decide, by intro c hc; simp at hc; rcases hc with rfl | rfl <;> decide, by rfl⟩
+  ⟨by decide, by rfl⟩
 
 /-- leaving_marker_needs_withdraw_or_feegrant: an agent with withdraw takes unrelated coins out of a marker. -/
 example : (∃ m, (exCfg "mk:cn" "B" ["G"] []).acct (exCfg "mk:cn" "B" ["G"] []).fromAddr = Acct.marker m) ∧
